@@ -18,7 +18,7 @@ def _eff(case):
     """(kind, wl, ops, sends, recvs) with the bytes a caller-supplied txbs held at construction as a first tx"""
     kind, wl, ops, sends, recvs = case[:5]
     own = case[6] if len(case) > 6 else None
-    if own and kind.startswith("client"):
+    if own and own != "norefresh" and kind.startswith("client"):
         ops = [("tx", bytes(own))] + list(ops)
     return kind, wl, ops, sends, recvs
 
@@ -110,6 +110,14 @@ class C09(core.Check):
             ("remotertls", True, [("tx", b"hello"), ("svc",), ("svc",)], [("acc", 2), ("f", T.SSLEOF)], [("d", b"abc"), ("f", T.SSLEOF)]),
             ("remotertls", False, [("tx", b"hello world"), ("ss",)] + [("ss",)] * 12, [("acc", 1)] * 14, []),
             ("client", True, [("tx", b"a" * 100), ("ss",), ("tx", b"b" * 100), ("ss",), ("ss",)], [("acc", 150), ("acc", 10), ("acc", 1000)], []),
+            # the echo server with partial sends and input arriving while the previous echo is still draining
+            ("srvs", False, [("conn", 1, [("acc", 3), ("acc", 3), ("acc", 9), ("acc", 9)], [("d", b"ABCDEFGH"), ("f", T.EAGAIN), ("d", b"IJKL")], []), ("svc",), ("svc",), ("svc",), ("svc",)], "echo"),
+            ("srvs", True, [("conn", 1, [("acc", 1), ("acc", 2), ("acc", 9)], [("d", b"abcd"), ("f", T.WANT_READ), ("d", b"ef"), ("f", T.WANT_READ), ("d", b"g")], [("ok",)]),
+                            ("conn", 2, [("acc", 9)], [("d", b"xy")], [("ok",)]), ("svc",), ("svc",), ("svc",), ("svc",), ("svc",)], "echo"),
+            # refreshable switched off (constructor / assigned later): the wire log must still record what is sent
+            ("remoter", True, [("tx", b"hello"), ("svc",), ("svc",)], [("acc", 2), ("acc", 9)], [("d", b"in")], None, "norefresh"),
+            ("remotertls", "std", [("tx", b"hello"), ("svc",), ("svc",)], [("acc", 2), ("acc", 9)], [("d", b"in")], None, "norefresh"),
+            ("srvw", False, True, [("conn", 1, [("acc", 2), ("acc", 9)], [("d", b"ab")], []), ("svc",), ("norefresh", 1), ("tx", 1, b"xyz"), ("svc",), ("svc",)]),
             # two connections: the one accepted first has a peer that does not read; the later one must still get its bytes
             ("srvs", False, [("conn", 1, [], [], []), ("conn", 2, [("acc", 9), ("acc", 9)], [], []), ("svc",), ("tx", 1, b"stuck"), ("tx", 2, b"flows"), ("svc",), ("svc",)]),
             ("srvs", True, [("conn", 1, [("acc", 1)], [], [("ok",)]), ("conn", 2, [("acc", 2), ("acc", 2), ("acc", 2)], [], [("ok",)]), ("conn", 3, [("acc", 9)], [], [("ok",)]),
@@ -178,6 +186,8 @@ class C09(core.Check):
                         ops.append(("tx", rng.choice(cas), alpha(rng.choice([1, 3, 6]))))
                     else:
                         ops.append(("svc",))
+                if rng.random() < 0.4:
+                    ops.insert(rng.randrange(1, len(ops) + 1), ("norefresh", rng.choice(cas)))
                 ops += [("svc",), ("wlopen",) if rng.random() < 0.5 else ("svc",), ("tx", rng.choice(cas), alpha(3)), ("svc",), ("svc",)]
                 if rng.random() < 0.5:
                     yield ("srvw", tls, rng.random() < 0.35, ops)
@@ -206,6 +216,23 @@ class C09(core.Check):
                 for _ in range(rng.randrange(3, 12)):
                     ops.append(("svc",) if rng.random() < 0.8 else ("tx", rng.randrange(1, ncon + 1), T.gen_bytes(rng, rng.choice([1, 3]))))
                 yield ("srvs", tls, ops)
+                continue
+            if i % 11 == 9:
+                # the echo server (EchoServerDoer): input arrives over several passes while earlier echoes are still draining in
+                # partial sends
+                tls = rng.random() < 0.4
+                kindr = "remotertls" if tls else "remoter"
+                ops = []
+                for ca in range(1, rng.randrange(1, 4) + 1):
+                    recvs = []
+                    for _ in range(rng.randrange(2, 6)):
+                        recvs.append(("d", T.gen_bytes(rng, rng.choice([2, 4, 8]))))
+                        if rng.random() < 0.7:
+                            recvs.append(("f", T.wouldblock_codes(kindr)[0]))
+                    sends = [("acc", rng.choice([1, 2, 3, 3, 1 << 30])) for _ in range(rng.randrange(4, 14))]
+                    ops.append(("conn", ca, sends, recvs, [("ok",)] if tls else []))
+                ops += [("svc",)] * rng.randrange(4, 14)
+                yield ("srvs", tls, ops, "echo")
                 continue
             if i % 6 == 1:
                 # the whole life of a client: bytes queued before / between connections, failed attempts, reopen, reconnect timer
@@ -311,7 +338,9 @@ class C09(core.Check):
                 recvs = T.gen_recvs(rng, kind, rng.randrange(0, 8), fault_p=fp, flavour=flav, big=(tier == "thorough"))
             if rng.random() < 0.2 and ops:   # the peer resets somewhere in the history (queued bytes are still delivered)
                 ops.insert(rng.randrange(0, len(ops) + 1), ("rst",))
-            if kind.startswith("client") and rng.random() < 0.5:
+            if kind.startswith("remoter") and rng.random() < 0.3:
+                yield (kind, rng.random() < 0.9, ops, sends, recvs, None, "norefresh")
+            elif kind.startswith("client") and rng.random() < 0.5:
                 # the application supplies its own rxbs / txbs objects (empty, or txbs already holding bytes) and keeps using them
                 yield (kind, rng.random() < 0.8, ops, sends, recvs, None, rng.choice([b"", b"", b"pre", T.gen_bytes(rng, 7)]))
             else:
@@ -325,7 +354,7 @@ class C09(core.Check):
         if case[0] == "wlclosed":
             return ("noop",)
         if case[0] == "srvs":
-            return ("server", bool(case[1]), T.request_server(case[2]))
+            return ("server", bool(case[1]), T.request_server(case[2], case[3] if len(case) > 3 else "direct"))
         if case[0] == "srvw":
             tls, att, isopen, sops, txed, rxed = _srv_parts(case)
             return ("serverw", bool(tls), isopen, txed, rxed, T.request_server(sops))
@@ -344,7 +373,7 @@ class C09(core.Check):
         if case[0] == "wlclosed":
             return T.run_wl_closed(case)
         if case[0] == "srvs":
-            return T.run_server((case[1], case[2]))
+            return T.run_server((case[1], case[2]) + tuple(case[3:4]))
         if case[0] == "srvw":
             tls, att, isopen, sops, txed, rxed = _srv_parts(case)
             return T.run_server((tls, sops, "direct", isopen, (txed, rxed)))
@@ -405,6 +434,23 @@ class C09(core.Check):
         if case[0] == "wlclosed":
             raised, rx_ok, tx_ok = obs
             return (["wirelog-closed-breaks-traffic"] if raised or not (rx_ok and tx_ok) else [])
+        if case[0] == "srvs" and len(case) > 3 and case[3] == "echo":
+            # the echo server: what each peer gets back is exactly what it sent, in order — a prefix of it at any moment,
+            # whatever partial sends happen and whenever new input arrives
+            bad = []
+            conns = [op for op in case[2] if op[0] == "conn"]
+            for st, snap in obs[1]:
+                socks = [e for e in snap if e[0] != "listen"]
+                for k, e in enumerate(socks):
+                    if k >= len(conns):
+                        continue
+                    sent = b"".join(r[1] for r in conns[k][3] if r[0] == "d")
+                    kacc, ntx = e[6], e[5]
+                    if kacc != sent[:len(kacc)]:
+                        bad.append("peer-not-prefix-in-order")
+                    elif len(kacc) + ntx > len(sent):
+                        bad.append("bytes-lost-or-duplicated")
+            return sorted(set(bad))
         if case[0] == "srvs":
             return sorted(set(_server_stream_clauses(case[2], obs[1])))
         if case[0] == "srvw":
@@ -579,7 +625,7 @@ class C09(core.Check):
                 f.append("op:" + kk)
         bsz = (case[5] if len(case) > 5 else None) or 8096
         if len(case) > 6 and case[6] is not None:
-            f.append("caller-owned-buffers:" + ("empty" if not case[6] else "prefilled"))
+            f.append("refreshable=False" if case[6] == "norefresh" else "caller-owned-buffers:" + ("empty" if not case[6] else "prefilled"))
         if len(_payload(ops)) > bsz:
             f.append("backlog>bs")
             if any(s_[0] == "acc" and 0 < s_[1] < bsz for s_ in sends):
@@ -620,7 +666,7 @@ class C09(core.Check):
         if case[0] == "srvs":
             ops = case[2]
             for i in range(len(ops)):
-                yield ("srvs", case[1], ops[:i] + ops[i + 1:])
+                yield ("srvs", case[1], ops[:i] + ops[i + 1:]) + tuple(case[3:])
             return
         if case[0] != "real" and len(case) > 5:
             for c in self.shrink(case[:5]):
